@@ -65,8 +65,16 @@ Deviation_PrefixHugePoolOOM ==
   /\ Trace[l].pl = "prefix" /\ Trace[l].phase = "setup" /\ Trace[l].oom
   /\ PrintT(<<"KNOWNDEV", "PrefixHugePoolOOM">>)
 
+(* server_id followed by one other built-in plugin: whatever leaves the chain still carries this server's *)
+(* identifier (C14 is about every reply)                                                                  *)
+TraceSidChain ==
+  /\ IsEvent("sidchain")
+  /\ LET e == Trace[l] IN
+     ("C14" \in Lens) => /\ ~e.panic
+                         /\ ~e.nil => e.sidok /\ (e.proto = 4 => e.siaddrok)
+
 TraceInit == l = 1
-TraceNext == TraceSetup \/ TraceH \/ Deviation_PrefixHugePoolOOM
+TraceNext == TraceSetup \/ TraceH \/ TraceSidChain \/ Deviation_PrefixHugePoolOOM
 TraceSpec == TraceInit /\ [][TraceNext]_tvars
 
 TraceAccepted ==
